@@ -64,7 +64,7 @@ func (e *Engine) FindAt(haystack []byte, at int) *Match {
 // findAtZero dispatches to the appropriate strategy for position 0.
 // This is a helper function to reduce cyclomatic complexity in FindAt.
 func (e *Engine) findAtZero(haystack []byte) *Match {
-	switch e.strategy {
+	switch e.searchStrategy() {
 	case UseNFA:
 		return e.findNFA(haystack)
 	case UseDFA:
